@@ -318,7 +318,7 @@ var (
 	tmpRoot    string
 	capsv      caps
 	straceArgs []string
-	timeout    = 20 * time.Second
+	timeout    = 60 * time.Second
 )
 
 const nobody = 65534
@@ -735,7 +735,17 @@ type runResult struct {
 	stderr   []byte
 }
 
+// runPeg runs the binary once more when the run was cut off by the harness itself (its own time limit, or the I/O of an already
+// exited process not drained in time — both happen on a heavily loaded machine); a binary that really hangs does so again.
 func runPeg(dir string, args []string, stdin []byte, asNobody bool, stdoutTo string, inject bool) runResult {
+	res := runPegOnce(dir, args, stdin, asNobody, stdoutTo, inject)
+	for try := 0; try < 2 && (res.timedOut || res.exit == -1); try++ {
+		res = runPegOnce(dir, args, stdin, asNobody, stdoutTo, inject)
+	}
+	return res
+}
+
+func runPegOnce(dir string, args []string, stdin []byte, asNobody bool, stdoutTo string, inject bool) runResult {
 	ctx, cancel := context.WithTimeout(context.Background(), timeout)
 	defer cancel()
 	argv := []string{pegPath}
@@ -776,7 +786,7 @@ func runPeg(dir string, args []string, stdin []byte, asNobody bool, stdoutTo str
 		}
 		return nil
 	}
-	cmd.WaitDelay = 2 * time.Second
+	cmd.WaitDelay = 20 * time.Second
 	err := cmd.Run()
 	res := runResult{stdout: so.Bytes(), stderr: se.Bytes()}
 	if ctx.Err() != nil {
